@@ -160,6 +160,56 @@ def trace_extra_gibbs(mk, ast=-30000.0, GE=1234.0, N=4.0):
     return got['GM'], got['G']
 
 
+FACTOR_CACHES = [('k', '_GBk', '.k'), ('area', '_areaFactor', '(.fac .area)'), ('vol', '_volumeFactor', '(.fac .vol)'),
+                 ('rem', '_gbRemoval', '(.fac .rem)'), ('arem', '_areaRemoval', '(.fac .arem)')]
+FACTOR_GETTERS = {'k': 'GBk', 'area': 'areaFactor', 'vol': 'volumeFactor', 'rem': 'gbRemoval', 'arem': 'areaRemoval'}
+SITES = ['bulk', 'dislocations', 'grain boundaries', 'grain edges', 'grain corners']
+
+
+def _nucleation_module():
+    vlib.use_repo()
+    with warnings.catch_warnings():
+        warnings.simplefilter('ignore')
+        from kawin.precipitation.parameters import Nucleation as NU
+    return NU
+
+
+def probe_factor_cache_table():
+    """which setter of the REAL NucleationBarrierParameters clears which lazily evaluated cache: every cache is filled
+    through its public getter (grain-boundary site), the setter is used with a NEW value, and a cache counts as cleared
+    when the private slot is None again; emitted as the table `fclears` (Lean source)"""
+    NU = _nucleation_module()
+    rows = []
+    for setter in ('gamma', 'gbEnergy', 'description'):
+        n = NU.NucleationBarrierParameters('grain boundaries', 0.2, 0.1)
+        for _, slot, _ in FACTOR_CACHES:
+            if not hasattr(n, slot):
+                raise RuntimeError('NucleationBarrierParameters has no cache slot %s any more' % slot)
+        for nm, slot, _ in FACTOR_CACHES:
+            getattr(n, FACTOR_GETTERS[nm])
+            if getattr(n, slot) is None:
+                raise RuntimeError('NucleationBarrierParameters.%s does not fill %s' % (FACTOR_GETTERS[nm], slot))
+        if setter == 'gamma':
+            n.gamma = 0.25
+        elif setter == 'gbEnergy':
+            n.gbEnergy = 0.15
+        else:
+            n.description = NU.GrainEdgeDescription()
+        for nm, slot, lean in FACTOR_CACHES:
+            rows.append((setter, lean, getattr(n, slot) is None))
+    txt = ['/-! ### NucleationBarrierParameters (parameters/Nucleation.py): the lazily evaluated caches (`_GBk` and the four factors)\n'
+           'and which of them each setter clears - PROBED on the real class: every cache filled through its getter, the setter used\n'
+           'with a new value, cleared = the slot is None again -/\n\n',
+           'inductive Fac | area | vol | rem | arem\n  deriving DecidableEq, Repr\n\n',
+           'inductive CacheId | k | fac (f : Fac)\n  deriving DecidableEq, Repr\n\n',
+           'inductive FSetter | gamma | gbEnergy | description\n  deriving DecidableEq, Repr\n\n',
+           '/-- `fclears s c`: assigning through setter `s` resets cache `c` -/\ndef fclears : FSetter → CacheId → Bool\n']
+    for setter, lean, cleared in rows:
+        txt.append('  | .%s, %s => %s\n' % (setter, lean, 'true' if cleared else 'false'))
+    txt.append('\n')
+    return ''.join(txt)
+
+
 # =====================================================================================================
 # regeneration
 # =====================================================================================================
@@ -430,6 +480,9 @@ def regenerate(ctx):
     emit('extraGM', ['ast', 'GE'], gm, 'ExtraGibbsModel.GM (= .energy): Gibbs energy per mole of atoms with the extra energy')
     emit('extraG', ['ast', 'GE', 'N'], G, 'ExtraGibbsModel.G (= .formulaenergy): Gibbs energy per formula unit with the extra energy')
     del sym.PATH[:]
+
+    # ---------------------------------------------------------------- NucleationBarrierParameters: which setter clears which cache
+    out.append(probe_factor_cache_table())
 
     text = sym.HEADER + '\nnamespace KawinV.Gen.C12\n\n' + ''.join(out) + 'end KawinV.Gen.C12\n'
     changed = vlib.write_if_changed(GEN_FILE, text)
@@ -1677,9 +1730,11 @@ def part_array_forms(ctx, res):
 def _guard(errors, res, name, fn):
     """a sub-part that raises (changed tree: the implementation raises on a generated input, a trace guard no longer
     holds, a stub no longer fits) must not take the other sub-parts down: the exception is kept and the run goes on"""
-    import traceback
+    import traceback, time
+    t0 = time.time()
     try:
         fn()
+        res.extra.setdefault('part_seconds', {})[name] = round(res.extra.get('part_seconds', {}).get(name, 0) + time.time() - t0, 2)
     except Exception as e:
         tb = traceback.format_exc()
         print('C12: sub-part %s raised (continuing with the other parts)\n%s' % (name, tb), file=sys.stderr)
